@@ -310,6 +310,184 @@ def conv_target(expr):
     return ("unknown", ast.unparse(expr))
 
 
+def _fold_readback(ctx: Ctx, mod, classes, extra_globals):
+    """Loading is lossless, decided on probe documents: the model classes are emulated in the micro-evaluator (a
+    constructor call binds the keywords, applies each field's own converter expression -- evaluated from the source -- and
+    fills defaults; validators are not run), a schema-valid probe for every kind of type expression and for a structure is
+    loaded through convert_to_lsp_type / the class, and the model read back (fields other than id_, unset ones left out)
+    must equal the probe: every declaration, property and type expression, in order.  A converter written as a function
+    of its own (flattening, de-duplicating, sorting what it is given) is decided here, whatever its shape."""
+    from ..microeval import Interp, Record, ClassRef, Raised
+    from ..microeval import ModuleRef
+
+    class _Validators:
+        """attrs.validators: any validator constructor gives an opaque validator (validators are not run by the fold)"""
+        def e5_attr(self, a):
+            return ("host", lambda *a_, **k_: Record("validator", {"name": a}))
+    fields_host = extra_globals["attrs"].attrs["fields"]
+    attrs_stub = ModuleRef("attrs", attrs={"fields": fields_host, "validators": _Validators(), "NOTHING": ("NOTHING",),
+                                           "field": ("host", lambda **kw: Record("field_spec", kw)),
+                                           "Factory": ("host", lambda f_, **k_: Record("Factory", {"factory": f_}))})
+    attr_stub = ModuleRef("attr", attrs={**attrs_stub.attrs, "ib": attrs_stub.attrs["field"]})
+    it = Interp(mod.tree, name=P_MODEL, extra_globals={"attrs": attrs_stub, "attr": attr_stub})
+    it.globals["attrs"], it.globals["attr"] = attrs_stub, attr_stub
+    import itertools as _itc
+    _ids = _itc.count(1)
+    it.globals["uuid"] = ModuleRef("uuid", attrs={"uuid4": ("host", lambda: f"<uuid {next(_ids)}>")})
+    it.load_module(mod.tree)          # module-level helpers that build fields (functools.partial(attrs.field, ...)) fold now
+
+    _specs = {}
+
+    def spec_of(cn, mf):
+        """(has_default, default thunk, converter value | None) of a field, from its definition evaluated as written
+        (attrs.field(...) directly, through a helper, or a plain default value)"""
+        key = (cn, mf.name)
+        if key in _specs:
+            return _specs[key]
+        v = mf.node.value
+        if v is None:
+            out = (False, None, None)
+        else:
+            try:
+                val = it.eval(v, it.globals)
+            except (AnalysisError, Raised) as e:
+                raise AnalysisError(f"{P_MODEL}:{mf.node.lineno}: the definition of {cn}.{mf.name} does not fold ({e})")
+            if isinstance(val, Record) and val.cls_name == "field_spec":
+                kw = val.fields
+                conv = kw.get("converter")
+                if "factory" in kw:
+                    out = (True, (lambda f_=kw["factory"]: it.apply(f_, [], {})), conv)
+                elif "default" in kw and isinstance(kw["default"], Record) and kw["default"].cls_name == "Factory":
+                    out = (True, (lambda f_=kw["default"].fields["factory"]: it.apply(f_, [], {})), conv)
+                elif "default" in kw and kw["default"] != ("NOTHING",):
+                    out = (True, (lambda d_=kw["default"]: d_), conv)
+                else:
+                    out = (False, None, conv)
+            else:
+                out = (True, (lambda d_=val: d_), None)
+        _specs[key] = out
+        return out
+
+    def make_ctor(cn):
+        flds = classes[cn]["fields"]
+
+        def ctor(*a, **kw):
+            if a:
+                raise AnalysisError(f"{P_MODEL}: positional construction of {cn} in the loader")
+            extra = sorted(set(kw) - set(flds))
+            if extra:
+                raise Raised("TypeError", (f"{cn}() got an unexpected keyword argument {extra[0]!r}",))
+            vals = {}
+            for fname, mf in flds.items():
+                has_default, dflt, conv = spec_of(cn, mf)
+                if fname in kw:
+                    v = kw[fname]
+                elif has_default:
+                    v = dflt()
+                else:
+                    raise Raised("TypeError", (f"{cn}() missing {fname}",))
+                if conv is not None:
+                    v = it.apply(conv, [v], {})       # attrs runs the converter on defaults too
+                vals[fname] = v
+            r = Record(cn, vals)
+            r.given = {k for k in kw}
+            return r
+        return ctor
+    for cn in classes:
+        ref = it.globals.get(cn)
+        if isinstance(ref, ClassRef):
+            ref.call = make_ctor(cn)
+
+    def rb(v):
+        if isinstance(v, Record):
+            return {k: rb(x) for k, x in v.fields.items() if k != "id_" and x is not None}
+        if isinstance(v, (list, tuple)):
+            return [rb(x) for x in it.iterate(v)]
+        if hasattr(v, "__iter__") and not isinstance(v, (str, dict)):
+            return [rb(x) for x in it.iterate(v)]
+        return v
+
+    def diff(a, b, path="$"):
+        if type(a) is not type(b) and not (isinstance(a, (list, tuple)) and isinstance(b, (list, tuple))):
+            return f"{path}: document has {a!r}, model has {b!r}"
+        if isinstance(a, dict):
+            for k in a:
+                if k not in b:
+                    return f"{path}.{k}: missing from the model"
+                d_ = diff(a[k], b[k], f"{path}.{k}")
+                if d_:
+                    return d_
+            for k in b:
+                if k not in a:
+                    return f"{path}.{k}: the model has {b[k]!r}, the document has no such entry"
+            return None
+        if isinstance(a, list):
+            if len(a) != len(b):
+                return f"{path}: the document lists {len(a)} entries, the model {len(b)}"
+            for i_, (x, y) in enumerate(zip(a, b)):
+                d_ = diff(x, y, f"{path}[{i_}]")
+                if d_:
+                    return d_
+            return None
+        return None if a == b else f"{path}: document has {a!r}, model has {b!r}"
+
+    def B(n):
+        return {"kind": "base", "name": n}
+
+    def R(n):
+        return {"kind": "reference", "name": n}
+    type_probes = {
+        "or nested in or": {"kind": "or", "items": [B("string"), {"kind": "or", "items": [B("integer"), B("null")]}]},
+        "or with a repeated member": {"kind": "or", "items": [B("string"), R("A"), B("string")]},
+        "or not in sorted order": {"kind": "or", "items": [R("Zed"), R("Alpha"), B("null")]},
+        "array of or": {"kind": "array", "element": {"kind": "or", "items": [B("string"), B("null")]}},
+        "array of array": {"kind": "array", "element": {"kind": "array", "element": B("uinteger")}},
+        "map to array": {"kind": "map", "key": B("string"), "value": {"kind": "array", "element": B("integer")}},
+        "map with reference key": {"kind": "map", "key": R("K"), "value": B("string")},
+        "tuple": {"kind": "tuple", "items": [B("integer"), B("integer")]},
+        "and": {"kind": "and", "items": [R("B"), R("A")]},
+        "literal": {"kind": "literal", "value": {"properties": [
+            {"name": "p", "type": B("string"), "optional": True},
+            {"name": "q", "type": {"kind": "or", "items": [B("string"), B("null")]}}]}},
+        "empty literal": {"kind": "literal", "value": {"properties": []}},
+        "stringLiteral": {"kind": "stringLiteral", "value": "x"},
+    }
+    ctl = it.globals.get("convert_to_lsp_type")
+    if ctl is None:
+        raise AnalysisError(f"{P_MODEL}: convert_to_lsp_type not found")
+    ctx.fn("model.py:convert_to_lsp_type and the converters of the model classes (folded on probe documents)")
+    import copy as _copy
+    n = 0
+    for label, doc in type_probes.items():
+        given = _copy.deepcopy(doc)
+        try:
+            node = mod.functions["convert_to_lsp_type"]
+            r = it.call(node, [], given) if node.args.kwarg is not None and not node.args.args else it.call(node, [given])
+        except Raised as e:
+            ctx.fail("load-readback-equals-document", f"type:{label}", f"loading the type expression `{label}` raises {e.exc_name}",
+                     P_MODEL, None)
+            continue
+        n += 1
+        d_ = diff(doc, rb(r))
+        ctx.check(d_ is None, "load-readback-equals-document", f"type:{label}",
+                  f"the type expression `{label}` does not read back as written: {d_}", P_MODEL, None,
+                  sample={"probe": label})
+    s_doc = {"name": "S", "properties": [{"name": "b", "type": B("string")},
+                                         {"name": "a", "type": type_probes["or nested in or"], "optional": True}],
+             "extends": [R("Y"), R("X")], "mixins": [R("M")], "documentation": "doc", "since": "3.17.0"}
+    sref = it.globals.get("Structure")
+    if isinstance(sref, ClassRef) and "Structure" in classes:
+        try:
+            r = sref.call(**_copy.deepcopy(s_doc))
+            n += 1
+            d_ = diff(s_doc, rb(r))
+            ctx.check(d_ is None, "load-readback-equals-document", "structure",
+                      f"a structure declaration does not read back as written: {d_}", P_MODEL, None)
+        except Raised as e:
+            ctx.fail("load-readback-equals-document", "structure", f"loading a structure declaration raises {e.exc_name}", P_MODEL, None)
+    ctx.floor("probe documents loaded and read back", n, 12)
+
+
 def run(ctx: Ctx):
     mod = Module(P_MODEL, ctx.src.text(P_MODEL))
     classes = model_classes(mod)
@@ -360,6 +538,8 @@ def run(ctx: Ctx):
         ref_ = kit.globals.get(cn_)
         if isinstance(ref_, _KCR):
             ref_.call = (lambda _cn: (lambda *a, **kw: _KRec(_cn, kw)))(cn_)
+    _fold_readback(ctx, mod, classes, {"attrs": _KMod("attrs", attrs={"fields": ("host", _fields_stub)}),
+                                       "attr": _KMod("attr", attrs={"fields": ("host", _fields_stub)})})
     lut = {}
     type_kinds = defs.get("TypeKind", {}).get("enum") or []
     for k_ in type_kinds:
@@ -434,7 +614,15 @@ def run(ctx: Ctx):
                          P_MODEL, f.node.lineno)
                 continue
             if ct[0] == "unknown":
-                raise AnalysisError(f"{P_MODEL}:{f.node.lineno}: converter {ct[1]} of {cname}.{p} is not understood")
+                # a converter written as a function of its own: what it builds is decided by the read-back fold on probe
+                # documents (rule load-readback-equals-document); the schema walk continues through the generic table
+                fnode = mod.functions.get(ct[1]) if isinstance(f.converter, ast.Name) else None
+                if fnode is None:
+                    raise AnalysisError(f"{P_MODEL}:{f.node.lineno}: converter {ct[1]} of {cname}.{p} is not understood")
+                ctx.ok("nested-declarations-built", {"field": f"{cname}.{p}", "converter": ct[1], "decided_by": "read-back fold"})
+                if tgt_schema == "Type" or any(isinstance(n_, ast.Name) and n_.id == "convert_to_lsp_type" for n_ in ast.walk(fnode)):
+                    walk_type(f"{cname}.{p}")
+                continue
             ctx.ok("nested-declarations-built")
             if ct[0] == "class":
                 walk(tgt_schema, ct[1], f"{cname}.{p}")
